@@ -40,4 +40,12 @@ CHECKS = {
         text='Part B enumerates crash points: for 40 scenario instances every crossing index (about 1 000 per retrieval) and for all 320 instances the first two occurrences of every distinct crossing signature x 6 exception types x 4 retrieval actions; after each run every object of the scenario has exactly its former attributes and the as_forged guard is empty. Part A snapshots inputs deeply around 1.2M algebra calls and checks results share no provenance container with inputs.',
         design_ref='DESIGN.md 2/C16', technique='exhaustive fault injection at sigtools->outside call boundaries (sys.setprofile) with before/after snapshot oracle; snapshot + aliasing invariant over generated algebra calls',
         note='Fault model: exception on entry of a Python-level call from a sigtools frame into a non-sigtools frame. C-level calls are not injection points. Snapshot depth 5 through __wrapped__/__signature__/func/__func__/__self__.'),
+    'C12': dict(
+        text='For every function of the <=3-named universe and every (kwoargs names, posoargs names) subset pair, start=/end= choice and autokwoargs exceptions= subset, as function, bound method and class attribute: decoration raises ValueError exactly for inadmissible selections (independent reference), sigtools.signature and inspect.signature equal the reference parameter list, and on 192 call shapes with distinguishable values the call raises TypeError iff the reference binding rejects it and otherwise delivers every value/default to the right parameter (2.7M decorations, ~10M calls in thorough).',
+        design_ref='DESIGN.md 2/C12', technique='bounded-exhaustive enumeration + Hypothesis vs an independent reference model (advertised signature) and CPython-binding-with-values oracle (differential on real calls)',
+        note='Trusted: vlib/cpbind.py Binder.bind; reference `expected` in checks/c12.py. One known finding (F12) is reported as KNOWN-FINDING and excluded by bucket.'),
+    'C19': dict(
+        text='For every function of the <=3-named universe, every bound positional count and every bound keyword set (<=3) in every insertion order (incl. partial-of-partial), signatures.signature(p) and sigtools.signature(p) accept exactly the non-colliding shapes the real partial object accepts (160 shapes, real calls), raise ValueError iff the partial is uncallable, and satisfy the structural clauses (identity of defaults, keyword-only followers, *args removal, absorbed keywords sourced to the partial, depth 0); partials of generated forwarding wrappers resolve the callee from bound positionals only.',
+        design_ref='DESIGN.md 2/C19', technique='bounded-exhaustive enumeration + Hypothesis, differential against really calling the functools.partial object',
+        note='Trusted: vlib/cpbind.py for the signature side; the partial object itself is the oracle for the behaviour side.'),
 }
